@@ -1,7 +1,9 @@
 package ipamsim
 
 import (
+	"fmt"
 	"os"
+	"strconv"
 	"testing"
 
 	"pgregory.net/rapid"
@@ -35,6 +37,97 @@ func classify(x *Exec, r *vcore.Rec) {
 	r.ClassIf(x.C.Cloud, "cloud_provider")
 }
 
+// enumRate > 0 (thorough tiers, env VERIF_ENUM_RATE): one in enumRate generated cases is cut after its last concurrent episode
+// and ALL scheduler decision sequences of that episode are enumerated depth-first (bounded), instead of the one generated schedule.
+var enumRate, enumBound = func() (int, int) {
+	r, _ := strconv.Atoi(os.Getenv("VERIF_ENUM_RATE"))
+	b, _ := strconv.Atoi(os.Getenv("VERIF_ENUM_BOUND"))
+	if b == 0 {
+		b = 1500
+	}
+	return r, b
+}()
+
+var enumCounter int
+
+// enumerate runs the case once per decision sequence of its last episode (stateless depth-first search over the scheduler's
+// choice points; the world is rebuilt from scratch for every schedule).
+func enumerate(c Case, mk func() []Observer) *vcore.Failure {
+	last := -1
+	for i, op := range c.Ops {
+		if op.K == "episode" {
+			last = i
+		}
+	}
+	if last < 0 {
+		return nil
+	}
+	c.Ops = append([]Op{}, c.Ops[:last+1]...)
+	var prefix []int
+	schedules := 0
+	exhaustive := false
+	for schedules < enumBound {
+		cc := c
+		cc.Ops = append([]Op{}, c.Ops...)
+		ep := cc.Ops[last]
+		ep.Sched = append(append([]int{}, prefix...), make([]int, 200)...)
+		cc.Ops[last] = ep
+		rr := &vcore.Rec{}
+		x, err := NewExec(&cc, rr, mk()...)
+		if err != nil {
+			return vcore.Failf("harness:init", "world construction failed: %v", err)
+		}
+		f := x.Run()
+		schedules++
+		if f != nil {
+			f.Msg = fmt.Sprintf("[enumerated schedule #%d %v] %s", schedules, prefix, f.Msg)
+			f.Trace = rr.Trace()
+			return f
+		}
+		// next leaf: increment the last decision that still has an untried alternative
+		taken := x.LastTaken
+		i := len(taken) - 1
+		for ; i >= 0; i-- {
+			if taken[i][0]+1 < taken[i][1] {
+				break
+			}
+		}
+		if i < 0 {
+			exhaustive = true
+			break
+		}
+		prefix = prefix[:0]
+		for j := 0; j < i; j++ {
+			prefix = append(prefix, taken[j][0])
+		}
+		prefix = append(prefix, taken[i][0]+1)
+	}
+	vcore.Extra("enumerated_episodes", 1)
+	vcore.Extra("enumerated_schedules", int64(schedules))
+	if exhaustive {
+		vcore.Extra("episodes_enumerated_exhaustively", 1)
+	}
+	return nil
+}
+
+func maybeEnumerate(c Case, r *vcore.Rec, mk func() []Observer) *vcore.Failure {
+	if enumRate <= 0 {
+		return nil
+	}
+	enumCounter++
+	if enumCounter%enumRate != 0 {
+		return nil
+	}
+	// only two-task episodes are enumerated (three-way episodes are sampled)
+	for i := range c.Ops {
+		if c.Ops[i].K == "episode" && len(c.Ops[i].Sub) > 2 {
+			c.Ops[i].Sub = c.Ops[i].Sub[:2]
+		}
+	}
+	r.Class("schedules_enumerated")
+	return enumerate(c, mk)
+}
+
 func runHistory(c Case, r *vcore.Rec, obs ...Observer) (*Exec, *vcore.Failure) {
 	x, err := NewExec(&c, r, obs...)
 	if err != nil {
@@ -48,6 +141,9 @@ func runHistory(c Case, r *vcore.Rec, obs ...Observer) (*Exec, *vcore.Failure) {
 var c01Params = &HistoryParams{MinOps: 15, MaxOps: 60, Episodes: true, Cloud: 1, Lag: true, Ranges: true}
 
 func checkC01(c Case, r *vcore.Rec) *vcore.Failure {
+	if f := maybeEnumerate(c, r, func() []Observer { return []Observer{&ObsC01{}} }); f != nil {
+		return f
+	}
 	o := &ObsC01{}
 	x, f := runHistory(c, r, o)
 	if x == nil {
@@ -76,6 +172,9 @@ var c04Params = &HistoryParams{MinOps: 15, MaxOps: 50, Episodes: true, Cloud: 1,
 	Kinds: []string{"sts", "sts", "dp", "cr", "bare", "dppool"}}
 
 func checkC04(c Case, r *vcore.Rec) *vcore.Failure {
+	if f := maybeEnumerate(c, r, func() []Observer { return []Observer{&ObsC04{}} }); f != nil {
+		return f
+	}
 	o := &ObsC04{}
 	x, f := runHistory(c, r, o)
 	if x == nil {
@@ -198,6 +297,9 @@ func genC07() *rapid.Generator[Case] {
 }
 
 func checkC07(c Case, r *vcore.Rec) *vcore.Failure {
+	if f := maybeEnumerate(c, r, func() []Observer { return []Observer{&ObsC07{}} }); f != nil {
+		return f
+	}
 	o := &ObsC07{}
 	x, f := runHistory(c, r, o)
 	if x == nil {
@@ -234,6 +336,9 @@ func genC09() *rapid.Generator[Case] {
 }
 
 func checkC09(c Case, r *vcore.Rec) *vcore.Failure {
+	if f := maybeEnumerate(c, r, func() []Observer { return []Observer{&ObsC09{}} }); f != nil {
+		return f
+	}
 	o := &ObsC09{}
 	x, f := runHistory(c, r, o)
 	if x == nil {
